@@ -134,18 +134,18 @@ impl SourceMapHermes {
 
         let (sm, mapping) = sm.rewrite_with_mapping(options)?;
 
-        if function_maps.len() >= mapping.len() {
-            function_maps = mapping
-                .iter()
-                .map(|idx| function_maps.get_mut(*idx as usize).and_then(Option::take))
-                .collect();
-            raw_facebook_sources = raw_facebook_sources.map(|mut sources| {
-                mapping
-                    .into_iter()
-                    .map(|idx| sources.get_mut(idx as usize).and_then(Option::take))
-                    .collect()
-            });
-        }
+        // The rewritten map numbers its sources in the order they are first used, so the
+        // per-source tables always have to follow; a source without an entry gets none.
+        function_maps = mapping
+            .iter()
+            .map(|idx| function_maps.get_mut(*idx as usize).and_then(Option::take))
+            .collect();
+        raw_facebook_sources = raw_facebook_sources.map(|mut sources| {
+            mapping
+                .into_iter()
+                .map(|idx| sources.get_mut(idx as usize).and_then(Option::take))
+                .collect()
+        });
 
         Ok(Self {
             sm,
